@@ -414,6 +414,7 @@ class Observer:
             self.extra_vals.append(float(ck.fun))
             cfg["_ckfun"] = float(ck.fun)
             cfg["_ckjac"] = np.array(ck.jac, dtype=float, copy=True)
+            cfg["_cksk_last"] = np.array(ck.hess_inv.sk[-1], dtype=float, copy=True) if ck.hess_inv.sk.shape[0] else None
             cfg["_ckx"] = np.array(ck.x, dtype=float, copy=True)
         self._gtol_val = None
         self._ftarget_val = None
@@ -588,6 +589,7 @@ def finalize(obs: Observer) -> list[dict]:
         return bool(np.all(a[fixed] == lb[fixed]))
 
     iter_pts = set()  # ids that were iterates (x0, accepted points)
+    unanchored = False  # sticky: some restart of this chain used a checkpoint whose newest pair does not end at its x
     cur_start = None
     for i, e in enumerate(evs):
         k = e["e"]
@@ -614,6 +616,12 @@ def finalize(obs: Observer) -> list[dict]:
                     break
             c["ckPg"] = bool("_ckjac" in e["cfg"] and gtol is not None
                              and projgr(e["cfg"]["_ckx"], e["cfg"]["_ckjac"], lb, ub) <= gtol)
+            skl = e["cfg"].get("_cksk_last")
+            if e["cfg"]["ck"] and skl is not None:
+                xa = obs.arr[e["x0"]]
+                if not any(np.allclose(xa - obs.arr[a], skl, rtol=1e-9, atol=1e-12 * (1.0 + float(np.max(np.abs(xa)))))
+                           for a in iter_pts if a != e["x0"]):
+                    unanchored = True
             o["cfg"] = c
             o["inbox"] = inbox(e["x0"])
             iter_pts.add(e["x0"])
@@ -710,6 +718,7 @@ def finalize(obs: Observer) -> list[dict]:
                 if not float(sk[r].dot(yk[r])) > 0:
                     sy = False
             prov = prov_rev[::-1]
+            o["unanchoredRestart"] = bool(unanchored)
             o["prov"] = prov
             o["syPos"] = sy
             if k == "Callback":
